@@ -5,9 +5,9 @@ import props as P
 TEXT = {
  "C01": ("Page set fidelity", "per-function proofs: page/crawled flag setters change exactly one bit, node write/read round trip, __ensure_stem_from_siblings (and add_lru in the thorough tier) preserve the trie invariant and touch no page bit of existing blocks; typestate TS-W (no stale rewrite of a cached node in traph.py). End-to-end page enumeration/counts/reports: bounded stand-in.", "3.3, 4.3, 4.5, 5 C01"),
  "C02": ("Stored LRUs findable, byte-identical, any stem length", "proved: storage back-ends implement block read/write, chunking (k = ceil(len/74)), set_stem/stem, node read (tail loop) and write (tail blocks, ghost rest) for every stem length, __ensure_stem_from_siblings preserves the TST invariants I1-I7 (BST bounds, GAP/DISJ, single reference, paths unique) for arbitrary stems; add_lru in the thorough tier. Lookup/traversal agreement end-to-end: bounded stand-in incl. the invariant evaluated on raw bytes.", "3.3, 4.1-4.5, 5 C02"),
- "C03": ("Link multigraph fidelity and symmetry", "proved: link accessors/setters of the node, node read/write; typestate TS-W at both add_*links call sites of add_links / index_batch_crawl_iter. Multigraph/symmetry end-to-end: bounded stand-in.", "4.6, 5 C03"),
+ "C03": ("Link multigraph fidelity and symmetry", "proved: LinkStore.add_links (count map of the new list = old list + submitted multiset, one stub per target, pointee before pointer, frame), weighted/deduped walks sound, count_links, link node accessors; typestate TS-W at both add_*links call sites; static LK-PAIR (each submitted pair is recorded once on the outbound and once on the inbound side on every path) and PRE-STUB. Symmetry end to end, degrees, transposes: bounded stand-in.", "4.6, 5 C03"),
  "C04": ("Longest-prefix webentity resolution", "proved: follow_lru returns, besides a Fresh node spelling the query, a history naming the deepest webentity among the stem levels it matched (spec function DEEP); retrieve_webentity / retrieve_prefix answer with it and raise TraphException iff none of those levels carries one; add/remove/move_prefix change exactly that prefix, refuse an attached one, and keep the invariant (verified against add_lru's contract); TS-W, FR-STATE. That no longer stem-prefix is stored than the walk matched, and resolution over histories with automatic creations: bounded stand-in.", "4.5, 4.7, 5 C04"),
- "C05": ("Webentity page sets partition the pages", "proved: the node accessors the realm walk branches on. Partition/agreement with resolution: bounded stand-in over every webentity of every bounded state.", "5 C05"),
+ "C05": ("Webentity page sets partition the pages", "proved: webentity_dfs_iter yields only Fresh heads of the realm of its start (spec function REL: no webentity strictly between, none on the node unless it is the start) with the bytes of their stored path and within max_depth - so pages below a nested webentity are excluded; lru_node sound and complete. Every member exactly once, partition over all prefixes, agreement with resolution, crawled filter: bounded stand-in.", "5 C05"),
  "C06": ("Automatic creation follows the rules", "proved: rule-flag accessor/setters; rules_to_apply yields one candidate anchor per recorded rule position (the LRU itself included), deepest first; follow_lru soundness; effect contract FR-RO(get_potential_prefix). Decision ladder vs decide(E,K), rule installation fixpoint, reopen: bounded stand-in over Hyphe's rule family.", "5 C06"),
  "C07": ("Webentity network = aggregated page links", "proved: dfs_with_webentity_iter yields each visited head with NEAR(head), the nearest webentity at or above it (every work-list entry carries the inherited one); windup_lru_for_webentity(node) = NEAR(node), so the fast map and the slow windup agree per page; link-walk soundness; PRE-STUB. Aggregation (both directions, include_auto, fast/slow as whole graphs, tallies, every page once): bounded stand-in.", "5 C07"),
  "C08": ("Per-webentity link queries", "proved: windup_lru_for_webentity(node) = NEAR(node) and windup_lru(block) = bytes of the stored path (classification and LRU of each link end), link-walk soundness, PRE-STUB at every walk. Switch combinations and cited/citing sets: bounded stand-in.", "5 C08"),
